@@ -9,7 +9,7 @@ from ..core import Violation
 META = {
     "level": "exploration",
     "rule": ("case = regular SEG-Y with ascending or descending axes and increments 1..5 (il and xl independent, line "
-             "numbers >= 1), converted at 16 or 32 bits, + a program of 5-30 expressions from the grammar of the "
+             "numbers >= 0), converted at 16 or 32 bits with a blockshape 4-16 lines wide (traces of up to 70 samples span several blocks in depth), + a program of 5-30 expressions from the grammar of the "
              "documented interface: iline[n]/xline[n] (present/absent), line slices with every combination of "
              "start/stop/step present (bounds existing line numbers, step a multiple of the increment in axis order), "
              "iteration, len(), depth_slice/trace/header by index, negative index, just outside, and slices with any "
@@ -23,11 +23,16 @@ META = {
     "assumptions": [
         "segyio is the reference for structure and positions; generators and line accessors reuse buffers, so every element is copied before comparing",
         "exception types are not compared (segyio's KeyError vs the emulator's IndexError is not a difference the property names)",
-        "line numbers are >= 1: segyio's own slice arithmetic treats 0 and negative line numbers as Python ordinals",
+        "line numbers are >= 0; on an axis that carries the label 0, a line slice / iteration is compared only when segyio itself answers as its documentation says (labels of range(start, stop, step) present in the file): its slice arithmetic reads a computed stop of -1 as an ordinal from the end, and copying that is not something the property asks of the emulator. Negative labels are not generated (segyio rejects or mis-answers most slices there)",
         "text header alphabet: EBCDIC letters, digits, space and . - : (where segyio's table and cp037 agree)",
         "subvolume[...] has no segyio counterpart: oracle = decoded volume sliced through the coordinate->index map of the SEG-Y axes",
     ],
 }
+
+# blockshapes with -1 for the depth: at 16/32 bits (4,4,-1) is 128/64 samples deep, (8,8,-1) 32/16, (16,16,-1) 8/4:
+# traces of up to 70 samples span several blocks along z
+BLOCKSHAPES = [[4, 4, -1], [4, 4, -1], [8, 8, -1], [16, 16, -1], [4, 8, -1]]
+LINES_FROM = int(os.environ.get("VERIF_C13_LINES_FROM", "0"))
 
 PRODUCTIONS = ["line_get", "line_get_absent", "line_slice", "line_iter", "len", "ord_get", "ord_neg", "ord_out",
                "ord_slice", "attr", "axes", "bin", "text", "dt", "cube", "subvolume"]
@@ -66,18 +71,18 @@ def expr(draw):
 
 @st.composite
 def cases(draw):
-    n_il, n_xl, ns = draw(st.integers(2, 8)), draw(st.integers(2, 8)), draw(st.integers(2, 12))
+    n_il, n_xl, ns = draw(st.integers(2, 8)), draw(st.integers(2, 8)), draw(st.one_of(st.integers(2, 12), st.integers(13, 70)))
     src = draw(sources.segy_source(geom="regular", dims=(n_il, n_xl), max_ns=12, allow_mid=False))
     src["ns"] = ns
     src["values"] = {"kind": "gauss", "vseed": draw(st.integers(0, 10 ** 6))}   # distinct lines: positions identifiable
     for ax, n in (("il", n_il), ("xl", n_xl)):
         step = draw(st.sampled_from([1, 1, 2, 3, 5, -1, -2, -3]))
-        lo = draw(st.integers(1, 3000))
+        lo = draw(st.one_of(st.integers(1, 3000), st.integers(LINES_FROM, 3)))
         src[ax] = [lo, step] if step > 0 else [lo + (-step) * (n - 1), step]
     src["delay"] = draw(st.sampled_from([0, 0, 100]))
     src["dt_us"] = draw(st.sampled_from([4000, 2000, 1000]))
     src["ext"] = 0
-    return {"src": src, "bpv": draw(st.sampled_from([16, 32])), "mode": draw(st.sampled_from(["exhaustive", "thorough", "thorough"])),
+    return {"src": src, "bpv": draw(st.sampled_from([16, 32])), "bs": draw(st.sampled_from(BLOCKSHAPES)), "mode": draw(st.sampled_from(["exhaustive", "thorough", "thorough"])),
             "prog": draw(st.lists(expr(), min_size=5, max_size=30))}
 
 
@@ -118,11 +123,15 @@ def build_expr(e, S, f, g, gpath):
                 n = int(max(ax) + 7)
             return f"{acc}[{n}] (absent)", lambda h: getattr(h, acc)[n], axis
         if p == "line_iter":
-            return f"list({acc})", lambda h: [np.array(x, copy=True) for x in getattr(h, acc)], axis
+            th = lambda h: [np.array(x, copy=True) for x in getattr(h, acc)]
+            th.abc = (None, None, None)
+            return f"list({acc})", th, axis
         a = int(ax[int(u[0] * len(ax))]) if e["has"][0] else None
         b = int(ax[int(u[1] * len(ax))]) if e["has"][1] else None
         c = int(e["k"] * inc) if e["has"][2] else None
-        return f"{acc}[{a}:{b}:{c}]", lambda h: [np.array(x, copy=True) for x in getattr(h, acc)[a:b:c]], axis
+        th = lambda h: [np.array(x, copy=True) for x in getattr(h, acc)[a:b:c]]
+        th.abc = (a, b, c)
+        return f"{acc}[{a}:{b}:{c}]", th, axis
     if p in ("ord_get", "ord_neg", "ord_out", "ord_slice"):
         acc = e["acc"]
         n = {"depth_slice": ns, "trace": ntr, "header": ntr}[acc]
@@ -183,6 +192,31 @@ def build_expr(e, S, f, g, gpath):
             sl.append(slice(start, stop, None if stepk is None else stepk * inc))
         return f"subvolume[{sl}]", ("sub", tuple(idx), lambda: g.subvolume[sl[0], sl[1], sl[2]]), "sub"
     raise ValueError(p)
+
+
+def documented_lines(ax, a, b, c):
+    """segyio's documented meaning of line[a:b:c]: the labels of range(a, b, c) that exist in the file,
+    an omitted start/stop being the first / one past the last label in the direction of the step."""
+    inc = c is None or c > 0
+    if a is None:
+        a = min(ax) if inc else max(ax)
+    if b is None:
+        b = max(ax) + 1 if inc else min(ax) - 1
+    have = set(ax)
+    return [ax.index(x) for x in range(a, b, 1 if c is None else c) if x in have]
+
+
+def segyio_follows_its_documentation(ra, thunk, ax, S, axis):
+    """On an axis carrying a label <= 0 segyio's slice arithmetic (slice.indices on labels) reads some
+    bounds as ordinals from the end.  Such expressions have no agreed meaning and are not compared;
+    everything segyio answers as documented is."""
+    want = documented_lines(ax, *thunk.abc)
+    if ra[0] != "ok" or ra[1][0] != "seq" or len(ra[1][1]) != len(want):
+        return False
+    for el, w in zip(ra[1][1], want):
+        if el[0] != "array" or w not in position(el[1], S, axis):
+            return False
+    return True
 
 
 def position(arr, S, axis):
@@ -249,12 +283,13 @@ def run_case(case, ctx):
     d = ctx.tmp()
     S = sources.build(case["src"], d)
     sgz = os.path.join(d, "o.sgz")
-    conv.segy_convert(S.path, sgz, case["bpv"], (4, 4, -1), header_detection=case.get("mode", "exhaustive"))
+    conv.segy_convert(S.path, sgz, case["bpv"], tuple(case.get("bs", (4, 4, -1))), header_detection=case.get("mode", "exhaustive"))
     V = spec.SgzSpec(conv.read_bytes(sgz)).volume()
     sigs, labels = [], []
     src = case["src"]
     order = ("desc" if src["il"][1] < 0 else "asc", "desc" if src["xl"][1] < 0 else "asc")
     incs = (abs(src["il"][1]), abs(src["xl"][1]))
+    il, xl = [int(v) for v in S.ilines], [int(v) for v in S.xlines]
     with segyio.open(S.path, strict=False) as f, seismic_zfp.open(sgz) as g:
         for e in case["prog"]:
             desc, thunk, axis = build_expr(e, S, f, g, sgz)
@@ -292,6 +327,11 @@ def run_case(case, ctx):
                 rb = ("ok", materialise(thunk(g)))
             except Exception as ex:
                 rb = ("exc", ex)
+            if hasattr(thunk, "abc") and min(il if axis == 0 else xl) <= 0:
+                labels.append("label<=0:" + e["p"])
+                if not segyio_follows_its_documentation(ra, thunk, il if axis == 0 else xl, S, axis):
+                    labels.append("segyio-departs-from-its-documentation")
+                    continue
             if ra[0] == "exc":
                 if rb[0] != "exc":
                     raise Violation("emulation-accepts-what-segyio-rejects", f"{desc}: segyio raises {type(ra[1]).__name__}, emulator returns {rb[1][0]}")
